@@ -8,7 +8,9 @@
 (*   line_start) over the list of newline offsets, computes a 1-based      *)
 (*   (line, column) per token, then filter_tokens drops whitespace tokens  *)
 (*   and - unless requested - comment tokens.                              *)
-(* A text is a sequence over {"n" newline, "s" blank, "x" other}; a token  *)
+(* A text is a sequence over {"n" newline, "s" blank, "x" other, "f" a     *)
+(* blank character that str.splitlines() but not the tool treats as a line *)
+(* break: form feed, vertical tab, lone CR, U+2028, ...}; a token           *)
 (* has a class: "code" (any non-Text, non-Comment type), "text" (type Text *)
 (* or Whitespace - a whitespace token iff its characters are all blank or  *)
 (* newline, INCLUDING the empty token, as after the `fix:` commit),        *)
@@ -23,7 +25,7 @@ EXTENDS Naturals, Integers, Sequences, FiniteSets, TLC
 
 CONSTANTS MaxLen
 
-Chars == {"n", "s", "x"}
+Chars == {"n", "s", "x", "f"}      \* "f": form feed, vertical tab, lone CR, U+2028 ... - blank, but NOT a line break
 Texts == UNION { [1..n -> Chars] : n \in 0..MaxLen }
 Classes == {"code", "text", "comment"}
 
@@ -34,7 +36,7 @@ Max(S) == CHOOSE x \in S : \A y \in S : y <= x
 Loc(t, off) == << 1 + Cardinality(NLBefore(t, off)),
                   IF NLBefore(t, off) = {} THEN off + 1 ELSE off - Max(NLBefore(t, off)) >>
 Slice(t, off, len) == SubSeq(t, off + 1, off + len)
-AllBlank(s) == \A i \in 1..Len(s) : s[i] \in {"n", "s"}
+AllBlank(s) == \A i \in 1..Len(s) : s[i] \in {"n", "s", "f"}
 IsWhitespaceToken(tok) == tok.cls = "text" /\ AllBlank(tok.txt)
 KeptIf(tok, kc) == ~IsWhitespaceToken(tok) /\ (tok.cls = "comment" => kc)
 
